@@ -231,6 +231,20 @@ func derive(r *vrand.Rand, s string) []byte {
 	if strings.HasPrefix(s, "{") {
 		var mp map[string]interface{}
 		if json.Unmarshal([]byte(s), &mp) == nil {
+			if ps, ok := mp["protected"].(string); ok && r.Chance(1, 4) {
+				// headers only in the unprotected / per-recipient place: decode the protected header and move it
+				if raw, err := b64.DecodeString(ps); err == nil {
+					var hm map[string]interface{}
+					if json.Unmarshal(raw, &hm) == nil {
+						delete(mp, "protected")
+						mp[[]string{"unprotected", "header"}[r.Intn(2)]] = hm
+						if r.Bool() {
+							b, _ := json.Marshal(mp)
+							return b
+						}
+					}
+				}
+			}
 			for k := r.Range(1, 3); k > 0; k-- {
 				editMap(r, mp)
 			}
@@ -304,6 +318,29 @@ func joseJWK(data []byte) string {
 	return res
 }
 
+func joseEntries() []hostile.Entry {
+	joseInit()
+	seedOf := func(corpus []string) func(r *vrand.Rand) []byte {
+		return func(r *vrand.Rand) []byte {
+			s := corpus[r.Intn(len(corpus))]
+			if r.Chance(1, 5) {
+				return []byte(s)
+			}
+			return derive(r, s)
+		}
+	}
+	return []hostile.Entry{
+		{Name: "jose.ParseSigned+Verify", F: joseVerify, Seed: seedOf(jwsCorpus), Weight: 50},
+		{Name: "jose.ParseEncrypted+Decrypt", F: joseDecrypt, Seed: seedOf(jweCorpus), Weight: 50},
+		{Name: "jose.JWK+JWKSet", F: joseJWK, Seed: func(r *vrand.Rand) []byte {
+			if r.Chance(1, 4) {
+				return []byte(`{"keys":[` + jwkCorpus[r.Intn(len(jwkCorpus))] + `,` + string(derive(r, jwkCorpus[r.Intn(len(jwkCorpus))])) + `]}`)
+			}
+			return seedOf(jwkCorpus)(r)
+		}, Weight: 50},
+	}
+}
+
 func TestVerif_C07_Jose(t *testing.T) {
 	joseInit()
 	part := "jose"
@@ -319,25 +356,7 @@ func TestVerif_C07_Jose(t *testing.T) {
 	if len(jwsCorpus) < 10 || len(jweCorpus) < 15 || len(jwkCorpus) < 5 {
 		m.Inconclusive("jose seed corpus incomplete")
 	}
-	seedOf := func(corpus []string) func(r *vrand.Rand) []byte {
-		return func(r *vrand.Rand) []byte {
-			s := corpus[r.Intn(len(corpus))]
-			if r.Chance(1, 5) {
-				return []byte(s)
-			}
-			return derive(r, s)
-		}
-	}
-	es := []hostile.Entry{
-		{Name: "jose.ParseSigned+Verify", F: joseVerify, Seed: seedOf(jwsCorpus), Weight: 50},
-		{Name: "jose.ParseEncrypted+Decrypt", F: joseDecrypt, Seed: seedOf(jweCorpus), Weight: 50},
-		{Name: "jose.JWK+JWKSet", F: joseJWK, Seed: func(r *vrand.Rand) []byte {
-			if r.Chance(1, 4) {
-				return []byte(`{"keys":[` + jwkCorpus[r.Intn(len(jwkCorpus))] + `,` + string(derive(r, jwkCorpus[r.Intn(len(jwkCorpus))])) + `]}`)
-			}
-			return seedOf(jwkCorpus)(r)
-		}, Weight: 50},
-	}
+	es := joseEntries()
 	per := 20000
 	if hostile.Ticks() {
 		per = 2000
